@@ -110,6 +110,12 @@ func anchorScenario(o anchorOpts) *Scenario {
 				return l
 			}),
 			wrecAct("wrec(W1,#1,1)", "W1", 1, func(uint64) uint64 { return 1 }),
+			wrecAct("wrec(W1,#1,last-1)", "W1", 1, func(l uint64) uint64 {
+				if l < 2 {
+					return 1
+				}
+				return l - 1
+			}),
 			wrecAct("wrec(W1,#1,maxuint64)", "W1", 1, func(uint64) uint64 { return maxU64 }),
 			wrecAct("wrec(W2,#1,next)", "W2", 1, next), // non-owner
 			wrecAct("wrec(W2,#2,next)", "W2", 2, next),
